@@ -747,6 +747,9 @@ func (d *Driver) apiCall(in *Inst, o *elObj, a *Action, ev *ApiEvt) {
 	ev.TRet = d.now()
 	ev.SRet = d.step
 	in.apiBusy--
+	if (a.Kind == AStart || a.Kind == ARestart) && err != nil && strings.Contains(err.Error(), "connection monitor") {
+		d.probe("start_refused_by_connection_monitor")
+	}
 	switch a.Kind {
 	case AStop, AStopCtx:
 		in.inStopCall--
